@@ -67,12 +67,13 @@ def labelled():
     for qy in ('name from . where (size > 1', 'name from . where size > 1)', 'name from . where ((size > 1)', 'name ((',
                'name from . where {size > 1', 'name from . where (size > 1}', 'name, lower(name from .', 'lower(name)) from .',
                'name from . where not (size > 1 and (name = a)', 'name from . where size > 1 )', 'name )', 'name (', '( name',
-               'name from . where lower(name = a'):
+               'name from . where lower(name = a', 'name, lower( from .', 'name, lower(', "name from . where lower(( = 'a'", 'name, upper{ from .',
+               'name, length(name from .'):
         out.append(([qy], 'unbalanced-bracket', 'reject'))
     for qy in ('name from . where size >', 'name from . where size > 1 and', 'name from . where size > 1 or',
                'name from . where', 'name from . where size between 1', 'name from . where size between 1 and', 'name from . where not',
                'name from . where > 1', 'name from . where size > 1 and and name = a', 'name from . where size + > 1',
-               'name from . where = 1'):
+               'name from . where = 1', 'name from . where is_file not', 'name from . where size not', 'name from . where size > 1 and name not'):
         out.append(([qy], 'dangling-operator', 'reject'))
     for op in ('=!', '=<', '=>', '!', '><', '~~', '=!='):
         out.append((['name from . where size %s 1' % op], 'unknown-operator', 'reject'))
@@ -123,6 +124,13 @@ def labelled():
             for lim in ('', ' limit 1', ' limit 2', ' limit 3', ' limit 100'):
                 out.append((['name, %s from . order by 2%s%s' % (key, tail, lim)], 'nan-sort-key', None))
                 out.append((['name from . order by %s%s, name%s' % (key, tail, lim)], 'nan-sort-key', None))
+    # very long and very deep input: an answer (of any kind) in time, no crash
+    N = 20000
+    for qy in ('name from . where ' + '(' * N + 'size > 1' + ')' * N, 'name from . where ' + '(' * N + 'size > 1', 'name from . where ' + '{' * N + 'size > 1' + '}' * N,
+               'name, ' + 'lower(' * 5000 + 'name' + ')' * 5000 + ' from .', 'name from . order by name ' + 'asc ' * 30000, 'name ' + ', name' * 20000 + ' from . limit 1',
+               "name from . where name = '" + 'x' * 120000 + "'", 'name from . where name = ' + 'y' * 100000, 'name from . where ' + 'not ' * 30000 + 'size > 1',
+               'name, ' + '1 + ' * 20000 + '1 from . limit 1', 'name from . where size > 1 ' + 'and size > 1 ' * 10000):
+        out.append(([qy], 'long-input', None))
     # numbers at the edge of the machine types inside expressions and aggregates
     for qy in ('sum(size * 0 + 10000000000000000000) from .', 'avg(size * 0 + 10000000000000000000), var_pop(size * 0 + 1e308) from .',
                '-rand(-9223372036854775808, -9223372036854775807) from . limit 1', 'name, -(0 - 9223372036854775808) from . limit 1',
